@@ -41,9 +41,9 @@ CLAIMED.update({
                  "TLC equality refinement of paired real executions (TraceEq) + TLC invariant I_C10_det on MC_Sim"),
     "C11": comp("The specification contains start(k)/resume(u) as explicit pause/resume steps; TLC checks on the S family that they are invisible (core state and effective log unchanged) and that the log is complete and duplicate-free whatever the pause points. Real executions interrupted at every k (and random multi-splits) must coincide event by event and in all outputs with the uninterrupted execution (TraceEq), each interrupted trace is validated against the specification, and refused calls must raise and change nothing.",
                  "TLC action property A_C11 on MC_Sim family S + TLC equality refinement of paired real executions (TraceEq) + trace validation of interrupted runs"),
-    "C14": comp("TLC enumerates every DAG on up to 4 ordered nodes x data-attribute variants x names/clocks; each is run through the real Planner/BatchPlanning and the (input, plan) record judged by TLC against PlanOK; TLC also checks that the records cover the whole enumerated input space. Random larger DAGs are added.",
+    "C14": comp("TLC enumerates every DAG on up to 4 ordered nodes (labels increasing or decreasing along the edges, zero-volume edges, whole and fractional demands) x data-attribute variants x names/clocks, plus shared-planner and same-name replanning variants; each is run through the real Planner/BatchPlanning and the (input, plan) record judged by TLC against PlanOK; TLC also checks that the records cover the whole enumerated input space. Random larger DAGs are added.",
                  "TLC as oracle over an enumerated input space (spec/Pure.tla: PlanOK), weakest use of the technique (pure function)"),
-    "C16": comp("Every unit spelling x custom factor x value combination of the enumerated space is written as a JSON configuration, parsed by the three real Config.parse_* methods and judged by TLC against ConfigOK (same multiplier in all three sections, capacities/counts untouched, unit-independent volume).",
+    "C16": comp("Every unit spelling x custom factor x value combination of the enumerated space is written as a JSON configuration, parsed (twice) by the three real Config.parse_* methods and judged by TLC against ConfigOK (same multiplier in all three sections, capacities/counts untouched, unit-independent volume, a real-time cold rate left a marker). In addition whole simulations of one physical system are run in four timestep units x three workflow-header spellings x four workflows and TLC (UnitRunOK) requires task runtimes, transfer waits, ingest time and data volume measured in seconds to be what the physical description says.",
                  "TLC as oracle over an enumerated input space (spec/Pure.tla: ConfigOK), weakest use of the technique (pure function)"),
     "C18": comp("TLC explores every tier-move history of spec/MC_Buffer.tla (sizes 1..6, rates 1..3 on each side and a `real time` cold tier, capacities, both directions, round trips) with conservation, rate, completion, single-residence and refusal clauses; the same histories executed on a real Buffer, and the moves that occur inside whole simulations (tiering configurations), are validated event by event against the specification and the clauses.",
                  "TLC model checking of MC_Buffer + TLC trace validation of real Buffer move histories and of whole simulations"),
